@@ -26,6 +26,8 @@ class Cell(NullCell):
         else:
             bits = bits.copy()
         refs = list(refs)
+        if len(refs) > 4:
+            raise CellError(f'a cell holds at most 4 references, got {len(refs)}')
         self.bits: BitarrayLike = bits
         self.refs: list = refs
         self.type_: int = cell_type
